@@ -240,6 +240,19 @@ def check(repo):
         fpath, fmode = f.params[1], f.params[2]
         exists = lambda truth: (lambda k, t: k == ("truth", "os.path.exists(%s)" % entry(fpath)) and t == truth)  # noqa: E731
         r4.require(bool(refusals(Ff, exists(True), ("FileExistsError",))), f, "%s create refuses an existing path" % cname, "%s create mode no longer raises FileExistsError for an existing path" % cname)
+        # ... and for nothing less: the constructor completes in create mode only when the path did not exist (an extra condition on the
+        # refusal - "exists and is not empty" - lets create truncate a file another handle already owns)
+        from ..contract import exit_nodes
+        is_mode = lambda m, truth: (lambda k, t: k[0] == "==" and ("'%s'" % m) in k[1:] and entry(fmode) in k[1:] and t == truth)  # noqa: E731
+        bad_c = unpermitted(Ff, [n_ for n_ in exit_nodes(Ff) if Ff.cfg.nodes[n_].kind != "raise"], [exists(False), is_mode("c", False), is_mode("r", True)])
+        bad_c = [(n_, alt) for (n_, alt) in bad_c if not any(is_mode("c", False)(k, t) for (k, t) in alt)]
+        if bad_c:
+            n_, alt = bad_c[0]
+            r4.fail_fn(f, Ff.cfg.nodes[n_].stmt or f.node, "%s create completes over an existing path" % cname,
+                       "%s create mode can complete although the path exists (reached under [%s]): the refusal of an existing path has an extra condition, so a file that "
+                       "is already owned by another handle or holds data can be truncated" % (cname, describe_alt(alt)))
+        else:
+            r4.ok({"class": cname, "rule": "create completes only when the path did not exist"})
         r4.require(any(name and name.split(".")[-1] == "FileNotFoundError" for _n, name, _f in Ff.raises()), f, "%s open refuses a missing path" % cname,
                    "%s open mode no longer raises FileNotFoundError for a missing path" % cname)
         unknown = refusals(Ff, lambda k, t: k[0] == "==" and "'r'" in k[1:] and entry(fmode) in k[1:] and not t, ("TypeError",))
